@@ -37,14 +37,14 @@ def df_flow(fn):
             steps.append("RDropResources")
         elif t == "if attrs:\n    row.update(attrs)":
             steps.append("RUpdateAttrs")
-        elif isinstance(s, ast.Try) and [ast.unparse(x) for x in s.body] == ["row.update(dict(zip(var_names, result)))"] \
-                and len(s.handlers) == 1 and ast.unparse(s.handlers[0].type) == "TypeError" \
-                and [ast.unparse(x) for x in s.handlers[0].body] == ["row.update(dict(zip(var_names, [result])))"] \
-                and not s.orelse and not s.finalbody:
+        elif t == ("if len(var_names) == 1:\n    row[var_names[0]] = result\nelse:\n"
+                   "    row.update(dict(zip(var_names, result)))"):
+            # a single output is the result itself, whatever its type; several are paired with their names
             steps.append("RUpdateOutputs")
             fallback = "true"
-        elif t == "row.update(dict(zip(var_names, result)))":
-            steps.append("RUpdateOutputs")
+        elif isinstance(s, ast.Try) or t == "row.update(dict(zip(var_names, result)))":
+            raise Refused(s, "the outputs are zipped with the names also when there is ONE name: a single output "
+                             "that can be iterated over (str, tuple, array) is cut to its first element")
         else:
             raise Refused(s, "statement of the row loop")
     return "true", steps, fallback
